@@ -237,7 +237,7 @@ def replay_dir(ctx, rd):
         exe = os.path.join(build.ensure_lib("tsan"), "harness", meta["harness"])
         wd = os.path.join(ctx.outdir, "replay")
         lines = _vs_script(meta["policy"], meta["scenario"]) + ["END"]
-        sp, tp, evs, died, err = run_harness(exe, lines, wd, "replay", env=TSAN_ENV)
+        sp, tp, evs, died, err = run_harness(exe, lines, wd, "replay", env=dict(TSAN_ENV, **(meta.get("env") or {})))
         if any(e.get("e") == "Died" and e.get("sig") == 166 for e in evs):
             ctx.violation("replay: data race reported again", rd)
         return
@@ -502,7 +502,7 @@ TSAN_ENV = {"TSAN_OPTIONS": "halt_on_error=1:exitcode=66:report_signal_unsafe=0:
             "TZ": "UTC"}
 
 
-def race_scan(ctx, harness_name, src, blocks, *, label="race", nbatch=None, timeout=900, max_confirm=2):
+def race_scan(ctx, harness_name, src, blocks, *, label="race", nbatch=None, timeout=900, max_confirm=2, env=None):
     from . import build
     blocks = [(p, sc) for p, sc in blocks if not p.startswith("dfs")]
     if not blocks or os.environ.get("VERIF_NO_RACE_SCAN"):
@@ -519,7 +519,7 @@ def race_scan(ctx, harness_name, src, blocks, *, label="race", nbatch=None, time
         for pol, sc in batches[bi]:
             lines += _vs_script(pol, sc)
         lines.append("END")
-        sp, tp, evs, died, err = run_harness(exe, lines, wd, "b%03d" % bi, timeout=timeout, env=TSAN_ENV)
+        sp, tp, evs, died, err = run_harness(exe, lines, wd, "b%03d" % bi, timeout=timeout, env=dict(TSAN_ENV, **(env or {})))
         if died:
             return ("runner-died", bi, died, err)
         order = []
@@ -552,7 +552,7 @@ def race_scan(ctx, harness_name, src, blocks, *, label="race", nbatch=None, time
             again = False
             err2 = ""
             for _try in range(3):
-                sp, tp, evs, died, err2 = run_harness(exe, lines, rd, "replay", timeout=timeout, env=TSAN_ENV)
+                sp, tp, evs, died, err2 = run_harness(exe, lines, rd, "replay", timeout=timeout, env=dict(TSAN_ENV, **(env or {})))
                 again = any(e.get("e") == "Died" and e.get("sig") == 166 for e in evs)
                 if again:
                     break
@@ -564,7 +564,7 @@ def race_scan(ctx, harness_name, src, blocks, *, label="race", nbatch=None, time
                     break
             open(os.path.join(rd, "tsan_report.txt"), "w").write(rep)
             json.dump({"property": ctx.pid, "vsched": True, "tsan": True, "harness": os.path.basename(exe), "policy": ex["policy"],
-                       "scenario": ex["scenario"], "what": "data race"}, open(os.path.join(rd, "replay.json"), "w"), indent=1)
+                       "scenario": ex["scenario"], "what": "data race", "env": env or {}}, open(os.path.join(rd, "replay.json"), "w"), indent=1)
             if "data race" not in rep:
                 # only data races are judged here (thread leaks, lock-order reports etc. are other checks' business)
                 ctx.extra["tsan_other_reports"] = ctx.extra.get("tsan_other_reports", 0) + 1
